@@ -14,7 +14,7 @@ import shutil
 import subprocess
 
 from ..core import env, par, shrink
-from ..core.result import Failure, Report
+from ..core.result import Failure, Report, robust
 
 ID = "C09"
 GIT = shutil.which("git")
@@ -201,7 +201,7 @@ def _work(arg):
     out = []
     seen = set()
     for pats, b in fails[:60]:
-        f = mk_failure(base, root, qs, pats, b)
+        f = robust(mk_failure, {"patterns": list(pats), "query": b[1]}, base, root, qs, pats, b)
         if f and f.key() not in seen:
             seen.add(f.key())
             out.append(f)
